@@ -165,6 +165,10 @@ func handleCCR() diam.HandlerFunc {
 					}
 
 					requestQuota = quota
+					if requestQuota < 0 {
+						// an overdrawn account (a termination debit may take the balance below zero) grants nothing
+						requestQuota = 0
+					}
 				}
 
 				creditControl = &charging_datatype.MultipleServicesCreditControl{
